@@ -109,6 +109,7 @@ func (sm *stateMachine) fixMsgIn(session *session, m *Message) {
 func (sm *stateMachine) SendAppMessages(session *session) {
 	sm.CheckSessionTime(session, time.Now())
 
+	verifPoint("sendApp.enter")
 	session.sendMutex.Lock()
 	defer session.sendMutex.Unlock()
 
